@@ -13,6 +13,7 @@ mod c02;
 mod c03;
 mod c04;
 mod c05;
+mod c07;
 mod tree;
 mod c09;
 mod c10;
@@ -73,6 +74,6 @@ fn main() {
             }
         };
     }
-    dispatch!("C01" => c01, "C02" => c02, "C03" => c03, "C04" => c04, "C05" => c05, "C09" => c09, "C10" => c10, "C11" => c11, "C13" => c13,
+    dispatch!("C01" => c01, "C02" => c02, "C03" => c03, "C04" => c04, "C05" => c05, "C07" => c07, "C09" => c09, "C10" => c10, "C11" => c11, "C13" => c13,
         "C14" => c14, "C15" => c15, "C16" => c16, "C17" => c17);
 }
